@@ -28,6 +28,11 @@ import (
 // simulator passes in its own environment (sim database, prebuilt function map).
 // What runs under the seeded schedules is therefore RunE's own code.
 
+func init() {
+	// RunE's tail calls telemetry.SendTelemetry: never from a simulator (no network, and not inside a bubble)
+	os.Setenv("OCTOSQL_NO_TELEMETRY", "1")
+}
+
 var OutputModes = []string{"live_table", "batch_table", "csv", "json", "stream_native"}
 
 // cliNode lets RunGated drive a whole CLI query: planning and the printer run
